@@ -19,11 +19,11 @@ template <class T> struct LibTypes<T, 4> { typedef Matrix44<T> M; typedef Vec4<T
 
 struct SvdTally
 {
-    long long cases = 0, transitions = 0, rankdef = 0, repeated = 0, diagonal = 0, negdet = 0, generic = 0;
+    long long cases = 0, transitions = 0, rankdef = 0, repeated = 0, diagonal = 0, negdet = 0, generic = 0, aliased = 0;
     double    w_orth = 0, w_recomp = 0, w_sv = 0;
     void merge (const SvdTally& o)
     {
-        cases += o.cases; transitions += o.transitions; rankdef += o.rankdef; repeated += o.repeated; diagonal += o.diagonal; negdet += o.negdet; generic += o.generic;
+        cases += o.cases; transitions += o.transitions; rankdef += o.rankdef; repeated += o.repeated; diagonal += o.diagonal; negdet += o.negdet; generic += o.generic; aliased += o.aliased;
         w_orth = std::max (w_orth, o.w_orth); w_recomp = std::max (w_recomp, o.w_recomp); w_sv = std::max (w_sv, o.w_sv);
     }
 };
@@ -91,6 +91,28 @@ template <class T, int N> static void checkSvd (const IntMat<N>& I, SvdTally& t)
         auto in = [&] () { return "T=" + std::string (ref::tname<T> ()) + " forcePositiveDeterminant=" + (force ? "true" : "false") + " A=" + I.str (); };
         if (force) jacobiSVD (A, U, S, V, std::numeric_limits<T>::epsilon (), true);
         else jacobiSVD (A, U, S, V); // default tolerance, default flag
+        // an output may be the very object passed as the input (A is a const reference, U and V are references):
+        // jacobiSVD (M, M, S, V) and jacobiSVD (M, U, S, M) must give what the call with distinct objects gives
+        {
+            LM M1 = A, V1; LV S1;
+            LM M2 = A, U2; LV S2;
+            if (force) { jacobiSVD (M1, M1, S1, V1, std::numeric_limits<T>::epsilon (), true); jacobiSVD (M2, U2, S2, M2, std::numeric_limits<T>::epsilon (), true); }
+            else { jacobiSVD (M1, M1, S1, V1); jacobiSVD (M2, U2, S2, M2); }
+            bool same1 = true, same2 = true;
+            for (int i = 0; i < N; ++i)
+            {
+                if (!ex::same (S1[i], S[i])) same1 = false;
+                if (!ex::same (S2[i], S[i])) same2 = false;
+                for (int j = 0; j < N; ++j)
+                {
+                    if (!ex::same (M1[i][j], U[i][j]) || !ex::same (V1[i][j], V[i][j])) same1 = false;
+                    if (!ex::same (U2[i][j], U[i][j]) || !ex::same (M2[i][j], V[i][j])) same2 = false;
+                }
+            }
+            ++t.aliased;
+            if (!same1) R ().fail (fn + ".U-aliases-A", in (), "U=" + ref::fmtLib<N> (U) + " S=" + fmtVec (S), "U=" + ref::fmtLib<N> (M1) + " S=" + fmtVec (S1));
+            if (!same2) R ().fail (fn + ".V-aliases-A", in (), "V=" + ref::fmtLib<N> (V) + " S=" + fmtVec (S), "V=" + ref::fmtLib<N> (M2) + " S=" + fmtVec (S2));
+        }
         ref::Mat<N> Ul = ref::fromLib<N> (U), Vl = ref::fromLib<N> (V), D;
         LD ou = ref::orthoErr (ref::transpose (Ul)), ov = ref::orthoErr (ref::transpose (Vl));
         t.w_orth = std::max (t.w_orth, (double) (std::max (ou, ov) / eps));
@@ -154,6 +176,7 @@ template <int N> static bool sweep (const char* stage, uint64_t count, unsigned 
     R ().cls ("svd" + n + ".already-diagonal", G.diagonal);
     R ().cls ("svd" + n + ".negative-determinant", G.negdet);
     R ().cls ("svd" + n + ".generic", G.generic);
+    R ().cls ("svd" + n + ".output-aliases-input", G.aliased);
     R ().note_max ("worst SVD " + n + " orthonormality (eps)", G.w_orth);
     R ().note_max ("worst SVD " + n + " recomposition (eps |A|_F)", G.w_recomp);
     R ().note_max ("worst SVD " + n + " singular value error (eps |A|_F)", G.w_sv);
